@@ -13,6 +13,7 @@ mod p_pred;
 mod p_exact;
 mod p_struct;
 mod p_total;
+mod p_zoom;
 mod props;
 
 use std::path::PathBuf;
